@@ -507,4 +507,165 @@ def substState (T : Table) (line : List Char) : MState := (run T (fuelFor T line
 /-- The substituted text. -/
 def substText (T : Table) (line : List Char) : List Char := (substState T line).text
 
+/-! ### Line-by-line machine: the alias table changes while a replacement is still being read
+
+  `yash_semantics::read_eval_loop` parses ONE command line (`Parser::command_line`), executes it, and only then
+  parses the next one — also when the next line is the rest of a multi-line alias value.  The `alias` / `unalias`
+  built-ins executed in between change the table; the characters still waiting in the buffer keep their
+  origin chains.  `Track` follows the token stream to know when a command line is complete and which of its
+  items are bare `alias …` / `unalias …` simple commands (the harness executes exactly those with the real
+  built-ins). -/
+
+structure Track where
+  depth : Nat := 0                          -- open compound commands
+  cont : Bool := false                      -- the last token was `|` `&&` `||` (a newline does not end the line)
+  plain : Bool := true                      -- the current item is so far a bare simple command
+  words : List (List Char) := []            -- its words (raw text), most recent first
+  pending : List (List (List Char)) := []   -- `alias`/`unalias` commands of this line, most recent first
+  deriving Repr
+
+/-- quote removal for the words of an `alias` command (no expansions are generated) -/
+def unquote : QMode → List Char → List Char
+  | _, [] => []
+  | .un, c :: t =>
+    if c == '\\' then
+      match t with
+      | [] => ['\\']
+      | d :: t' => if d == '\n' then unquote .un t' else d :: unquote .un t'
+    else if c == '\'' then unquote .sq t
+    else if c == '"' then unquote .dq t
+    else c :: unquote .un t
+  | .sq, c :: t => if c == '\'' then unquote .un t else c :: unquote .sq t
+  | .dq, c :: t =>
+    if c == '"' then unquote .un t
+    else if c == '\\' then
+      match t with
+      | [] => ['\\']
+      | d :: t' =>
+        if d == '\n' then unquote .dq t'
+        else if d == '$' || d == '`' || d == '"' || d == '\\' then d :: unquote .dq t'
+        else c :: d :: unquote .dq t'
+    else c :: unquote .dq t
+
+/-- `alias name=value`: `AliasSet::replace` -/
+def defineAlias (T : Table) (arg : List Char) : Table :=
+  let name := arg.takeWhile (· != '=')
+  if name.isEmpty || name.length == arg.length then T
+  else
+    let n := String.ofList name
+    { name := n, value := arg.drop (name.length + 1), global := false } :: T.filter (fun a => a.name != n)
+
+/-- leading option of a built-in's argument list (`parse_arguments`: options end at the first operand):
+    `none` = no option, operands as given; `some (opt, rest)`. -/
+def leadingOption (args : List (List Char)) : Option (List Char × List (List Char)) :=
+  match args with
+  | a :: rest => if a.head? == some '-' && a.length > 1 then some (a, rest) else none
+  | [] => none
+
+/-- the effect of one `alias …` / `unalias …` command on the table (`alias` has no options; `unalias -a`) -/
+def applyCmd (T : Table) (ws : List (List Char)) : Table :=
+  match ws.map (unquote .un) with
+  | cmd :: args =>
+    if cmd == "alias".toList then
+      match leadingOption args with
+      | none => args.foldl defineAlias T
+      | some (o, rest) => if o == "--".toList then rest.foldl defineAlias T else T
+    else if cmd == "unalias".toList then
+      match leadingOption args with
+      | none => T.filter (fun a => !args.contains a.name.toList)
+      | some (o, rest) =>
+        if o == "--".toList then T.filter (fun a => !rest.contains a.name.toList)
+        else if o == "-a".toList && rest.isEmpty then []
+        else T
+    else T
+  | [] => T
+
+def isOpener (w : String) : Bool :=
+  w == "{" || w == "if" || w == "while" || w == "until" || w == "for" || w == "case"
+
+def isCloser (w : String) : Bool := w == "}" || w == "fi" || w == "done" || w == "esac"
+
+def isAliasCmd (ws : List (List Char)) : Bool :=
+  match ws.getLast? with
+  | some w => w == "alias".toList || w == "unalias".toList
+  | none => false
+
+/-- end of an item (`;`, newline, end of input) at depth 0 -/
+def endItem (st : PState) (tr : Track) : Track :=
+  let keep := tr.plain && (st == .one || st == .args) && tr.depth == 0 && isAliasCmd tr.words
+  { tr with plain := true, words := [], cont := false,
+            pending := if keep then tr.words.reverse :: tr.pending else tr.pending }
+
+def lineEndState (st : PState) : Bool :=
+  st == .cmd0 || st == .pre || st == .one || st == .args || st == .afterComp
+
+/-- Follows one consumed token (`st` = state before it, `sub` = `(trans st k).sub`, `raw` = its text).
+    Returns the new tracking state and the commands to execute now (a command line was completed). -/
+def trackTok (st : PState) (k : Kind) (sub : Option Bool) (raw : List Char) (tr : Track) :
+    Track × List (List (List Char)) :=
+  match k with
+  | .word lit asg =>
+    if sub.isNone then
+      match lit with
+      | some w =>
+        if isOpener w then ({ tr with depth := tr.depth + 1, plain := false, cont := false }, [])
+        else if isCloser w then ({ tr with depth := tr.depth - 1, plain := false, cont := false }, [])
+        else ({ tr with plain := false, cont := false }, [])
+      | none => ({ tr with plain := false, cont := false }, [])
+    else if st == .cmd0 && !asg then ({ tr with words := [raw], cont := false }, [])
+    else if st == .one || st == .args then ({ tr with words := raw :: tr.words, cont := false }, [])
+    else ({ tr with plain := false, cont := false }, [])
+  | .io => ({ tr with plain := false, cont := false }, [])
+  | .op s =>
+    if s == "\n" then
+      if tr.depth == 0 && !tr.cont && lineEndState st then
+        let tr' := endItem st tr
+        ({ tr' with pending := [] }, tr'.pending.reverse)
+      else (tr, [])
+    else if s == ";" then
+      if tr.depth == 0 && lineEndState st then (endItem st tr, [])
+      else ({ tr with plain := false, cont := false }, [])
+    else if s == "&" then
+      if tr.depth == 0 then ({ tr with plain := true, words := [], cont := false }, [])
+      else ({ tr with cont := false }, [])
+    else if s == "|" || s == "&&" || s == "||" then ({ tr with plain := false, cont := true }, [])
+    else if s == "(" then
+      if st == .cmd0 || st == .fnBody then ({ tr with depth := tr.depth + 1, plain := false, cont := false }, [])
+      else ({ tr with plain := false, cont := false }, [])
+    else if s == ")" then
+      if st == .caseSep then ({ tr with plain := false, cont := false }, [])
+      else ({ tr with depth := tr.depth - 1, plain := false, cont := false }, [])
+    else ({ tr with plain := false, cont := false }, [])
+  | _ => ({ tr with plain := false, cont := false }, [])
+
+structure LState where
+  T : Table
+  m : MState
+  tr : Track := {}
+
+/-- One step of the line machine: `step` with the current table; a consumed token may complete a command
+    line, whose `alias`/`unalias` commands then update the table. -/
+def lstep (l : LState) : Option LState :=
+  match step l.T l.m with
+  | none => none
+  | some m' =>
+    if m'.subs != l.m.subs then some { l with m := m' } else
+    let r := l.m.rest.drop (skipLen l.m.rest)
+    let tok := lexTok r
+    let (tr', cmds) := trackTok l.m.st tok.kind (trans l.m.st tok.kind).sub (chars (r.take tok.len)) l.tr
+    some { T := cmds.foldl applyCmd l.T, m := m', tr := tr' }
+
+def lrun : Nat → LState → LState × Bool
+  | 0, l => (l, false)
+  | f + 1, l =>
+    match lstep l with
+    | none => (l, true)
+    | some l' => lrun f l'
+
+/-- the table after the last command line (which may end without a newline) has been executed -/
+def LState.finalTable (l : LState) : Table :=
+  if l.tr.depth == 0 && !l.tr.cont && lineEndState l.m.st then
+    (endItem l.m.st l.tr).pending.reverse.foldl applyCmd l.T
+  else l.T
+
 end YashModel.Alias
